@@ -12,6 +12,7 @@ CONSTANTS
   MaxExp = 1000000
   MaxFull = 1000000
   MaxDropProto = 1000000
+  Phases = TRUE
   PCap = 4096
   Eager <- NoEager
   EagerCmd = FALSE
